@@ -24,6 +24,7 @@ size_t g_str_k;
 #define ROOM(p) (__CPROVER_OBJECT_SIZE(p) - __CPROVER_POINTER_OFFSET(p))
 
 size_t g_last_strlen;	/* ghost: result of the most recent strlen() */
+const char *g_last_strlen_arg;	/* ... and its argument (-DVERIF_STRLEN_RECORD_ARG) */
 #ifndef VERIF_NO_STRLEN
 size_t strlen(const char *s)
 {
@@ -48,6 +49,9 @@ size_t strlen(const char *s)
 	__CPROVER_assume(n <= 255 || s[255] != 0);
 #ifdef VERIF_STRLEN_RECORD
 	g_last_strlen = n;
+#endif
+#ifdef VERIF_STRLEN_RECORD_ARG
+	g_last_strlen_arg = s;
 #endif
 	return n;
 }
@@ -93,6 +97,21 @@ char *strcpy(char *dst, const char *src)
 	dst[0] = c0;
 	if (n > 0 && n < 255)
 		__CPROVER_assume(dst[n] == 0);
+	return dst;
+}
+#elif defined(VERIF_STRCPY_MEASURED)
+/* strcpy of a string whose length the caller has just measured (len = strlen(src);
+ * buf = malloc(len + 1); strcpy(buf, src)): the copy has the MEASURED length (strlen is a
+ * function of the unchanged string; the generic model above would pick a terminator afresh). */
+char *strcpy(char *dst, const char *src)
+{
+	__CPROVER_assert(dst != NULL && src != NULL, "strcpy: non-NULL arguments");
+	__CPROVER_assert(g_last_strlen_arg == src, "strcpy(measured): the source is the string measured by the preceding strlen()");
+	size_t n = g_last_strlen;
+	__CPROVER_assert(n < ROOM(dst), "strcpy: destination large enough for the string and its terminator");
+	dst[n] = 0;
+	if (n > 0)
+		dst[0] = src[0];
 	return dst;
 }
 #else
